@@ -15,6 +15,7 @@ def relevant(diff):
     # properties whose quick tier loads (as a root) a package touched by the diff; ALL=1 runs every property
     dirs=set(os.path.dirname(m) for m in re.findall(r'^diff --git a/(\S+)',open(diff).read(),re.M))
     if ALL: return props
+    if os.environ.get('OWN')=='1': return [diff.split('/')[-2]]
     out=[]
     for p,ps in pats.items():
         if any(d==q or d.startswith(q+'/') for d in dirs for q in ps): out.append(p)
